@@ -183,11 +183,17 @@ func ZZ_C13_LoadingWithWriter() {
 	vfSetPreemptions(vfConfig("PRE", 1))
 	invocations, running := 0, 0
 	fails := vfChoose("loaderFails", 2) == 1
+	writerDoneInsideLoad := false
+	writerDone := false
 	ls.Loader(func(ctx context.Context, key uint64) (Loaded[uint64], error) {
 		invocations++
 		running++
 		vfAssert("one-load-in-flight", running == 1)
+		before := writerDone
 		vfYield()
+		if writerDone && !before {
+			writerDoneInsideLoad = true
+		}
 		running--
 		if fails {
 			return Loaded[uint64]{}, zzErrLoad
@@ -208,6 +214,7 @@ func ZZ_C13_LoadingWithWriter() {
 		} else {
 			s.Set(1, 777, 1, 0)
 		}
+		writerDone = true
 		done <- 1
 	}()
 	<-done
@@ -215,6 +222,9 @@ func ZZ_C13_LoadingWithWriter() {
 	vfSetPreemptions(0)
 	s.Wait()
 	vfReach("both-finished")
+	// load and store are one atomic step with respect to writers of the key: a Set/Delete of the key cannot
+	// start and finish while the loader is running (it would then be overwritten by, or resurrect, an older value)
+	vfAssert("no-writer-of-the-key-completes-inside-its-load", !writerDoneInsideLoad)
 	if gerr == nil {
 		vfAssert("caller-gets-loaded-or-written-value", got == 777 || (got == 101 && invocations == 1))
 	} else {
